@@ -124,6 +124,9 @@ class StoryScenario(explore.Scenario):
         for k in ("K1", "D1", "K3"):
             for t in ("B1", "B3", "B4", None):
                 out.append(["kmove", k, t])
+            # the same move issued from the collection side
+            out.append(["kadd", k, "B3"])
+            out.append(["kadd", k, "B4"])
             for o in (0, 8):
                 out.append(["koff", k, o])
             for s_ in (0, 8):
@@ -131,6 +134,7 @@ class StoryScenario(explore.Scenario):
         for b in ("B1", "B3", "B4"):
             for t in ("S1", "S3", None):
                 out.append(["bmove", b, t])
+            out.append(["badd", b, "S2"])
             for a in (None, 0x10, 0x20):
                 out.append(["baddr", b, a])
             out.append(["bsize", b, 0x20])
@@ -173,6 +177,10 @@ class StoryScenario(explore.Scenario):
         try:
             if kind == "kmove":
                 O[op[1]].byte_interval = at(op[2])
+            elif kind == "kadd":
+                O[op[2]].blocks.add(O[op[1]])
+            elif kind == "badd":
+                O[op[2]].byte_intervals.update([O[op[1]]])
             elif kind == "koff":
                 O[op[1]].offset = op[2]
             elif kind == "ksize":
@@ -223,6 +231,7 @@ class StoryScenario(explore.Scenario):
             # that own the operation, not of whichever check happens to run
             owners = {
                 "kmove": ("C04", "C16"), "bmove": ("C04", "C16"),
+                "kadd": ("C04", "C16"), "badd": ("C04", "C16"),
                 "smove": ("C04", "C16"), "mmove": ("C04", "C16"),
                 "ymove": ("C04", "C16", "C10"), "pmove": ("C04", "C16"),
                 "mods_reverse": ("C04", "C16"),
@@ -308,7 +317,8 @@ class StoryScenario(explore.Scenario):
         return out
 
 
-PROPS = ("C01", "C03", "C04", "C05", "C06", "C10", "C11", "C12", "C13", "C18")
+PROPS = ("C01", "C03", "C04", "C05", "C06", "C10", "C11", "C12", "C13", "C18",
+         "C19")
 
 
 def run(ctx):
